@@ -165,6 +165,16 @@ func decodePollBody(eio int, jsonp bool, ctype string, body []byte) ([]ref.Packe
 
 // encodePost encodes packets for a data request.
 func (c *Client) encodePost(ps []ref.Packet) (body []byte, ctype string) {
+	if len(ps) == 1 && ps[0].Type == 9 {
+		raw := append([]byte("9"), ps[0].Data...)
+		if c.eio() != 4 {
+			raw = []byte(fmt.Sprintf("%d:%s", len(raw), raw))
+		}
+		if c.sp.JSONP {
+			return ref.EncodeJSONPForm(string(raw)), "application/x-www-form-urlencoded"
+		}
+		return raw, "text/plain;charset=UTF-8"
+	}
 	if c.eio() == 4 {
 		if c.sp.JSONP {
 			return ref.EncodeJSONPForm(string(ref.EncodePayloadV4(ps))), "application/x-www-form-urlencoded"
@@ -530,6 +540,21 @@ func (c *Client) writeLoop() {
 			simrt.Yield(-5)
 			continue
 		}
+		// a garbage packet travels alone so that the reference encoders never see it
+		if len(q) > 1 {
+			for i, p := range q {
+				if p.Type == 9 {
+					c.sendQ = append(append([]ref.Packet(nil), q[i+1:]...), c.sendQ...)
+					if i == 0 {
+						q = q[:1]
+					} else {
+						c.sendQ = append([]ref.Packet{p}, c.sendQ...)
+						q = q[:i]
+					}
+					break
+				}
+			}
+		}
 		body, ctype := c.encodePost(q)
 		h := c.hdr()
 		h["Content-Type"] = ctype
@@ -864,9 +889,12 @@ func (s *wsClient) mask() [4]byte {
 }
 
 func (s *wsClient) sendPacket(p ref.Packet) error {
-	data, bin := ref.EncodePacket(p, s.eio, !s.b64)
+	var data []byte
+	var bin bool
 	if p.Type == 9 { // garbage
 		data, bin = append([]byte("9"), p.Data...), false
+	} else {
+		data, bin = ref.EncodePacket(p, s.eio, !s.b64)
 	}
 	op := byte(1)
 	if bin {
